@@ -150,6 +150,10 @@ type World struct {
 	Skips    []CronSkip
 	Ticks    int
 	Restarts int
+	// captured at every StartProcess
+	StartedAt        time.Time
+	PersistedAtStart map[string]time.Time // JobConfig key -> status.lastScheduled in the store at start
+	RequestsAtStart  int
 
 	mutJob  *jobmutatingwebhook.Webhook
 	valJob  *jobvalidatingwebhook.Webhook
@@ -338,6 +342,15 @@ func (w *World) StartProcess() error {
 		return fmt.Errorf("cron worker init: %w", err)
 	}
 	w.Alive = true
+	w.Restarts++
+	w.StartedAt = w.Clock.Now()
+	w.PersistedAtStart = map[string]time.Time{}
+	for _, jc := range w.API.JobConfigs() {
+		if jc.Status.LastScheduled != nil {
+			w.PersistedAtStart[jc.Namespace+"/"+jc.Name] = jc.Status.LastScheduled.Time
+		}
+	}
+	w.RequestsAtStart = len(w.Requests)
 	return nil
 }
 
